@@ -287,7 +287,21 @@ func TestRaceAndAtomicSwitch(t *testing.T) {
 							atomic.AddInt64(&swapsDuringFlight, 1)
 						}
 					} else { // churn in the other modules
-						switch (i + g) % 6 {
+						switch (i + g) % 10 {
+						// per-resource loads on a resource of its own, cycling through a valid list, a list of invalid rules only,
+						// an empty list and nil (the rarely taken paths of the per-resource loaders)
+						case 6:
+							lists := [][]*hotspot.Rule{{{ID: id, Resource: "t3", MetricType: hotspot.QPS, ParamIndex: 0, Threshold: 1000, DurationInSec: 1}}, {{ID: id, Resource: "t3", MetricType: hotspot.QPS, ParamIndex: 0, Threshold: -1, DurationInSec: 1}}, {}, nil}
+							_, err = hotspot.LoadRulesOfResource("t3", lists[(i/10)%4])
+						case 7:
+							lists := [][]*flow.Rule{{{ID: id, Resource: "t3", Threshold: 1000}}, {{ID: id, Resource: "t3", Threshold: -1}}, {}, nil}
+							_, err = flow.LoadRulesOfResource("t3", lists[(i/10)%4])
+						case 8:
+							lists := [][]*isolation.Rule{{{ID: id, Resource: "t3", MetricType: isolation.Concurrency, Threshold: 1000}}, {{ID: id, Resource: "t3", MetricType: isolation.Concurrency, Threshold: 0}}, {}, nil}
+							_, err = isolation.LoadRulesOfResource("t3", lists[(i/10)%4])
+						case 9:
+							lists := [][]*cb.Rule{{{Id: id, Resource: "t3", Strategy: cb.ErrorCount, RetryTimeoutMs: 5, MinRequestAmount: 1, StatIntervalMs: 1000, Threshold: 1000}}, {{Id: id, Resource: "t3", Strategy: cb.ErrorCount, RetryTimeoutMs: 5, StatIntervalMs: 0, Threshold: -1}}, {}, nil}
+							_, err = cb.LoadRulesOfResource("t3", lists[(i/10)%4])
 						case 0:
 							_, err = cb.LoadRules([]*cb.Rule{{Id: id, Resource: "t0", Strategy: cb.ErrorCount, RetryTimeoutMs: 5, MinRequestAmount: 1, StatIntervalMs: 1000, Threshold: float64(1 + i%3)}})
 						case 1:
